@@ -28,7 +28,7 @@ import time
 import numpy as np
 
 from translate.pylogic import Unsupported
-from translate import c12_wiring
+from translate import c12_wiring, pyscalar
 from vlib.core import Broken, TRUSTED_COMMON, REPO
 from harness import c12_fd as fd
 
@@ -399,7 +399,17 @@ def run(ctx):
             "mellon.conditional.{_FullConditional,_LandmarksConditional,_LandmarksConditionalCholesky}._mean (affine read-out form) + 9 concrete class headers"]
         ctx.cov["wiring_table"] = human
         ctx.cov["class_table"] = meta
-        ok_build = ctx.build_props({"gen/C12Wiring.v": text})
+        # the analytic theorems (mean_gradient_formula) are about the kernel expressions of C05 / C11: regenerate those
+        # definitions from the CURRENT tree with the same translator (same file names and content as checks/C05.py)
+        gen = {}
+        try:
+            gen_k, funcs_k = pyscalar.translate_kernels(REPO)
+            gen.update(gen_k)
+            ctx.cov["translated_functions"] += ["world-A kernel definitions (translate/pyscalar.translate_kernels): %d functions" % len(funcs_k)]
+        except pyscalar.Unsupported as u:
+            ctx.broken.append(Broken("translation", "kernels", str(u)))
+        gen["gen/C12Wiring.v"] = text
+        ok_build = ctx.build_props(gen)
     except Unsupported as u:
         ctx.broken.append(Broken("translation", "C12 tables", str(u)))
 
